@@ -25,8 +25,6 @@ impl TokenKind {
                 | TokenKind::Times
                 | TokenKind::Divide
                 | TokenKind::Reminder
-                | TokenKind::LogicalNot
-                | TokenKind::BinaryNot
                 | TokenKind::Xor
                 | TokenKind::And
                 | TokenKind::Or
